@@ -108,6 +108,40 @@ if any(h is None for h, _ in cfh):
 elif len(set(h for h, _ in cfh)) > 1:
     R.violation("ctrlflow:cli-builds-differ", "GARBLE_EXPERIMENTAL_CONTROLFLOW=1 garble %s build [%s]: %d independent cold builds gave %d different binaries" % (S, cfp, len(cfh), len(set(h for h, _ in cfh))),
                 {"module/" + k: v for k, v in cf_prog(cfp).items()})
+# ---- engine B: scripted map-iteration worlds. garble is rebuilt with a toolchain whose runtime takes every map hash seed and
+# iteration offset from a deterministic sequence selected by VERIF_MAPWORLD; each world is replayable. The binary must not
+# depend on the world.
+gmw = Garble(binpath=build_garble_mapworld(), name="c03")
+WORLDS = list(range(1, 5 if tier == "quick" else 17))
+world_builds = 0
+def world_build(job):
+    tag, files, modp, fl, env, w = job
+    base_w = ensure_base(gmw, fl, env or None)
+    caches = compose(os.path.join(g.root, "caches-mw-%s-%d" % (tag, w)), [base_w])
+    root = os.path.join(g.root, "mw-%s-%d" % (tag, w)); src = os.path.join(root, "src")
+    write_module(src, files, modpath=modp)
+    gg = Garble(binpath=gmw.bin, gocache=caches[0], garblecache=caches[1], name="c03")
+    pr = gg.garble(fl, "build", ["-o", os.path.join(root, "out"), "."], src, extra_env=dict(env or {}, VERIF_MAPWORLD=str(w)), tmpdir=os.path.join(root, "tmp"))
+    return tag, w, (sha256_file(os.path.join(root, "out")) if pr.returncode == 0 else None), short(pr.stderr, 400)
+CFENV = {"GARBLE_EXPERIMENTAL_CONTROLFLOW": "1"}
+wjobs = [("plain", P1, MODP, [], {}, w) for w in WORLDS]
+wjobs += [("ctrlflow-hardening", cf_prog("junk_jumps=2 flatten_passes=2 flatten_hardening=xor,delegate_table"), "cfcorpus", [S], CFENV, w) for w in WORLDS[:3 if tier == "quick" else 8]]
+if tier != "quick":
+    wjobs += [("literals", P1, MODP, ["-literals", S], {}, w) for w in WORLDS]
+wres = {}
+for tag, w, h, err in pmap(world_build, wjobs, workers=4):
+    world_builds += 1
+    wres.setdefault(tag, {})[w] = (h, err)
+for tag, byw in wres.items():
+    hs = set(h for h, _ in byw.values())
+    if None in hs:
+        if tag.startswith("ctrlflow"): log("map-world build rejected for", tag, [e for h, e in byw.values() if h is None][:1])
+        else: R.violation("map-world-build-fails:" + tag, "build fails in a scripted map world: %s" % [e for h, e in byw.values() if h is None][:1])
+    elif len(hs) > 1:
+        groups = {}
+        for w, (h, _) in byw.items(): groups.setdefault(h, []).append(w)
+        R.violation("depends-on-map-order:" + tag, "program %s: the binary depends on garble's map iteration order: worlds %s give %d different binaries (replay: VERIF_MAPWORLD=<w> with the map-world garble build)" % (
+            tag, sorted(groups.values()), len(hs)))
 # ---- engine B at the unit seam: the obfuscators must depend on the seeded generator only
 hb = build_hooked()
 FILES = {"support.go": c11_corpus.SUPPORT, "cf.go": c11_corpus.CF}
@@ -137,7 +171,7 @@ R.finish({
     "distinct_nontrivial": pairs,
     "rule": "CLI grid: a 2-package program (reflection, literals, generics, assembly) under %d flag sets; around a baseline build whose user packages are cold: a second independent cold build, warm rebuild, dependency built first, -p 1/16, "
             "a longer source directory, TMPDIR inside $PWD and on another file system; oracle sha256 equality with the baseline; control flow: independent cold CLI builds with one seed; unit seam: ctrlflow.Obfuscate under one scripted generator, "
-            "process-global math/rand seeded with 2 values (deterministic detection of a dependence on it) and %d repetitions in fresh processes (samples map iteration orders; sampling, reported as such); distinct_nontrivial = binary pairs compared" % (len(configs), REPEAT),
+            "process-global math/rand seeded with 2 values (deterministic detection of a dependence on it) and %d repetitions in fresh processes; scripted map worlds: the CLI builds repeated with a garble binary whose runtime draws every map seed / iteration offset from a replayable sequence (world 1..N), binaries must be equal across worlds; distinct_nontrivial = binary pairs compared" % (len(configs), REPEAT),
     "samples": [{"config": c[0], "flags": c[1]} for c in configs] + [{"ctrlflow_setting": k, "params": v} for k, v in list(SETTINGS.items())[:2]],
-    "cli_builds": builds, "distinct_baseline_binaries": len(hashes), "unit_seam_runs": unit_runs,
+    "cli_builds": builds, "map_world_builds": world_builds, "map_worlds": len(WORLDS), "distinct_baseline_binaries": len(hashes), "unit_seam_runs": unit_runs,
 }, assumptions=["the standard library is warm in every build of the grid (the fully cold case is covered by the base-cache construction itself)", "map iteration orders are sampled, not enumerated (no order-controlling instrumentation was built)"], exhaustive=False)
